@@ -5,7 +5,8 @@ import shapelib as sl
 from lib import coq_list as L
 
 THEOREMS = ['C03_chain_spec', 'C03_chain_assert', 'C03_lalr_filters_copy', 'C03_lalr_builds_shape',
-            'C03_shape_total', 'C03_placeholders_count', 'C03_example_rule', 'C03_example_derivation']
+            'C03_shape_total', 'C03_placeholders_count', 'C03_find_rule_size', 'C03_maybe_untaken',
+            'C03_example_rule', 'C03_example_size', 'C03_example_derivation']
 GEN_DEPS = []
 RULE = ('(a) random compiled-rule records (0-5 symbols, terminals/rules, `_` names, filter_out, alias, template source, '
         'keep_all_tokens, expand1, empty_indices incl. inconsistent ones) x maybe_placeholders x ambiguous: the wrapper '
@@ -30,7 +31,7 @@ TRUSTED_BASE = ['hand model Shape/Chain.v of parse_tree_builder.py (tied by intr
 ASSUMPTIONS = ['terminals of the end-to-end grammars are single distinct characters (lexing is not under test here)',
                'GrammarError at construction (colliding optional expansions, LALR conflicts) and CYK\'s rejection of '
                'empty rules exclude the engine for that grammar']
-IMPORTS = 'From LV Require Import Base.Prelude Shape.Chain Shape.Spec Shape.Transform Shape.ChainCheck.'
+IMPORTS = 'From LV Require Import Base.Prelude Shape.Chain Shape.Spec Shape.Transform Shape.Ebnf Shape.ChainCheck.'
 
 ENGINES = [('earley', 'dynamic', 'resolve'), ('earley', 'basic', 'resolve'), ('earley', 'dynamic_complete', 'resolve'),
            ('earley', 'dynamic', 'explicit'), ('lalr', 'basic', None), ('lalr', 'contextual', None), ('cyk', 'basic', None)]
@@ -45,6 +46,34 @@ F18_WITNESSES = [
     ('start: b "," a\nb: "a"+\na: A+\nA: "a"\n', 'aa,aa'),
     ('start: b "," a\nb: ("a" "x")* "y"\na: (A "x")*\nA: "a"\n', 'axy,axax'),
 ]
+
+
+class Deferred:
+    """collects Coq cases of all streams; evaluated in one batch of at most 3 generated files"""
+
+    def __init__(self):
+        self.cases, self.handlers = [], []
+
+    def add(self, term, handler):
+        self.cases.append(term)
+        self.handlers.append(handler)
+
+    def run(self, ctx, name, check):
+        if not self.cases:
+            return
+        chunk = max(50, -(-len(self.cases) // 3))
+        bad, errs = ctx.coq_bad_indices(name, IMPORTS, check, self.cases, chunk=chunk)
+        for e in errs:
+            ctx.violation('correspondence:coq-eval', {'error': e}, False, e[:300])
+        seen = {}
+        for i in bad:
+            kind, fn = self.handlers[i]
+            seen[kind] = seen.get(kind, 0) + 1
+            if seen[kind] <= 3:
+                fn()
+
+
+DEFER = Deferred()
 
 
 def f18_bad(gtext, text, parser):
@@ -111,18 +140,74 @@ def callback_cases(ctx, records, stream, wild):
                              'children': [sl.show(c) for c in calls[0][0]],
                              'observed': None if calls[0][1] is None else
                              (calls[0][1][0] if calls[0][1][0] == 'err' else sl.show(calls[0][1][1]))}})
-    bad, errs = ctx.coq_bad_indices('c03' + stream.replace('-', ''), IMPORTS, 'cb_check', cases, chunk=350)
-    for e in errs:
-        ctx.violation('correspondence:coq-eval', {'error': e}, False, e[:300])
-    for i in bad[:3]:
-        r, mp, amb, calls = meta[i]
-        ctx.violation('correspondence:Shape/Chain.v vs parse_tree_builder callback',
-                      {'no_longer_checks': 'model/implementation agreement on the rule callback', 'rule': r,
-                       'maybe_placeholders': mp, 'ambiguous': amb,
-                       'calls': [([sl.show(c) for c in ch], None if o is None else (o[0] if o[0] == 'err' else sl.show(o[1])))
-                                 for ch, o in calls]}, False,
-                      'wrapper chain or call result of rule %s differs from the Coq model' % r['origin'])
-    return len(bad)
+    for term, (r, mp, amb, calls) in zip(cases, meta):
+        def h(r=r, mp=mp, amb=amb, calls=calls):
+            ctx.violation('correspondence:Shape/Chain.v vs parse_tree_builder callback',
+                          {'no_longer_checks': 'model/implementation agreement on the rule callback', 'rule': r,
+                           'maybe_placeholders': mp, 'ambiguous': amb,
+                           'calls': [([sl.show(c) for c in ch], None if o is None else (o[0] if o[0] == 'err' else sl.show(o[1])))
+                                     for ch, o in calls]}, False,
+                          'wrapper chain or call result of rule %s differs from the Coq model' % r['origin'])
+        DEFER.add('(CaseCB %s)' % term, ('cb', h))
+
+
+def random_ebnf(rng, depth=0):
+    """(coq term, lark tree-or-symbol) of a rule tree as FindRuleSize sees it"""
+    from lark.grammar import Terminal, NonTerminal
+    from lark.load_grammar import _EMPTY
+    from lark.tree import Tree as ST
+    x = rng.random()
+    if depth >= 3 or x < 0.45:
+        y = rng.random()
+        if y < 0.12:
+            return 'EEmpty', _EMPTY
+        if y < 0.6:
+            nm, fo = rng.choice(['A', '_B', 'X', '__ANON_1']), rng.random() < 0.5
+            return '(ESym (mkSym true %s %s))' % (sl.S(nm), sl.B(fo)), Terminal(nm, fo)
+        nm = rng.choice(['a', '_x', '__a_star_0', 'b'])
+        return '(ESym (mkSym false %s false))' % sl.S(nm), NonTerminal(nm)
+    n = rng.choice([0, 1, 2, 2, 3]) if x < 0.75 else rng.choice([1, 2, 2, 3])
+    kids = [random_ebnf(rng, depth + 1) for _ in range(n)]
+    if x < 0.75:
+        return '(ESeq %s)' % L([k[0] for k in kids] or []), ST('expansion', [k[1] for k in kids])
+    return '(EAlt %s)' % L([k[0] for k in kids]), ST('expansions', [k[1] for k in kids])
+
+
+def find_rule_size_stream(ctx):
+    from lark.load_grammar import FindRuleSize, EBNF_to_BNF, _EMPTY
+    from lark.grammar import RuleOptions
+    import copy
+    rng = ctx.rng
+    cases, meta = [], []
+    for _ in range(ctx.scale(250, 2500)):
+        term, tree = random_ebnf(rng, 0)
+        while not hasattr(tree, 'data'):
+            term, tree = random_ebnf(rng, 0)
+        ka = rng.random() < 0.4
+        try:
+            n = FindRuleSize(ka).transform(tree)
+            eb = EBNF_to_BNF()
+            eb.rule_options = RuleOptions(keep_all_tokens=True) if ka else None
+            res = eb.maybe(tree)
+            m = len(res.children[1].children) if all(c is _EMPTY for c in res.children[1].children) else -1
+        except Exception as ex:
+            ctx.violation('correspondence:FindRuleSize raises', {'no_longer_checks': 'FindRuleSize total on rule trees',
+                                                                 'tree': term, 'error': repr(ex)[:200]}, False, repr(ex)[:200])
+            continue
+        ctx.count('find-rule-size', key=(term, ka), nontrivial=n >= 1, size=n)
+        if not isinstance(n, int) or m < 0:
+            ctx.violation('correspondence:FindRuleSize', {'no_longer_checks': 'FindRuleSize / maybe result shape', 'tree': term},
+                          False, 'unexpected result %r / %r' % (n, m))
+            continue
+        cases.append('((%s, %s, %s, %s) : frs_case)' % (sl.B(ka), term, sl.N(n), sl.N(m)))
+        meta.append((term, ka, n, m))
+    for term_, (term, ka, n, m) in zip(cases, meta):
+        def h(term=term, ka=ka, n=n, m=m):
+            ctx.violation('correspondence:Shape/Ebnf.frs vs FindRuleSize / EBNF_to_BNF.maybe',
+                          {'no_longer_checks': 'placeholder count of an untaken [..] == kept symbols of the longest alternative',
+                           'tree': term, 'keep_all_tokens': ka, 'FindRuleSize': n, 'EMPTY_in_maybe': m}, False,
+                          'FindRuleSize gives %d, maybe() inserts %d _EMPTY; the model / longest-alternative count differs' % (n, m))
+        DEFER.add('(CaseFRS %s)' % term_, ('frs', h))
 
 
 def build(text, parser, lexer, amb, ka, mp):
@@ -214,6 +299,7 @@ def rebuild(rules):
 
 def correspond(ctx):
     rng = ctx.rng
+    DEFER.__init__()
     wide = 3 if ctx.widen else 1
 
     ctx.note('t_start=%.1f' % (__import__('time').time()-ctx.t0))
@@ -241,7 +327,7 @@ def correspond(ctx):
     tried = 0
     done = 0
     lalr_ok = 0
-    while (done < ngram or lalr_ok < ngram * 0.7) and tried < ngram * 8:
+    while (done < ngram or lalr_ok < ngram * 0.7) and tried < ngram * 3:
         tried += 1
         G = sl.gen_grammar(rng)
         gtext = G.text
@@ -300,17 +386,17 @@ def correspond(ctx):
                 except Exception:
                     pass
     ctx.note('t_e2e_py=%.1f' % (__import__('time').time()-ctx.t0))
-    bad, errs = ctx.coq_bad_indices('c03e2e', IMPORTS, 'e2e_check', e2e_cases, chunk=300)
-    for e in errs:
-        ctx.violation('correspondence:coq-eval', {'error': e}, False, e[:300])
-    for i in bad[:5]:
-        gtext, text, ka, mp, tree = e2e_meta[i]
-        ctx.violation('correspondence:Spec.shape / chain driver vs lark LALR tree',
-                      {'no_longer_checks': 'Coq shape of the LALR derivation == lark tree', 'grammar': gtext, 'text': text,
-                       'keep_all_tokens': ka, 'maybe_placeholders': mp, 'observed': sl.show(tree)}, False,
-                      'Coq shape / driver of the derivation lark followed differs from the tree lark returned')
-
+    for term, (gtext, text, ka, mp, tree) in zip(e2e_cases, e2e_meta):
+        def h(gtext=gtext, text=text, ka=ka, mp=mp, tree=tree):
+            ctx.violation('correspondence:Spec.shape / chain driver vs lark LALR tree',
+                          {'no_longer_checks': 'Coq shape of the LALR derivation == lark tree', 'grammar': gtext, 'text': text,
+                           'keep_all_tokens': ka, 'maybe_placeholders': mp, 'observed': sl.show(tree)}, False,
+                          'Coq shape / driver of the derivation lark followed differs from the tree lark returned')
+        DEFER.add('(CaseE2E %s)' % term, ('e2e', h))
     ctx.note('t_e2e_coq=%.1f' % (__import__('time').time()-ctx.t0))
+    # (f) FindRuleSize / maybe against Shape/Ebnf.v ------------------------------------------------------
+    find_rule_size_stream(ctx)
+
     # (a) random rule records against lark's callback objects ---------------------------------------
     recs = [sl.random_record(rng, True) for _ in range(ctx.scale(170, 2500) * wide)]
     callback_cases(ctx, recs, 'callback-random', True)
@@ -323,6 +409,8 @@ def correspond(ctx):
     recs = list(uniq.values())
     rng.shuffle(recs)
     callback_cases(ctx, recs[:ctx.scale(100, 1200)], 'callback-compiled', False)
+    ctx.note('t_python_done=%.1f' % (__import__('time').time() - ctx.t0))
+    DEFER.run(ctx, 'c03', 'c03_check')
 
 
 def replay(ctx, case):
